@@ -500,6 +500,7 @@ class ProvRDFSerializer(Serializer):
                     )
                 else:
                     bundle_id = str(graph.identifier)
+                    self._make_nameable([(graph.identifier, None, None)])
                     bundle = document.bundle(bundle_id)
                     self.decode_container(
                         graph,
@@ -515,6 +516,28 @@ class ProvRDFSerializer(Serializer):
                 predicate_mapper=predicate_mapper,
             )
 
+    def _make_nameable(self, graph):
+        """
+        Gives every resource of the graph a namespace in the document.
+
+        A Turtle/TriG writer leaves out the @prefix of a namespace whose names it
+        could not abbreviate (a local part with a slash, a trailing dot ...), so a
+        resource may be outside every declared prefix although its namespace was
+        declared in the original document.
+        """
+        for subj, _pred, obj in graph:
+            for term in (subj, obj):
+                if not isinstance(term, URIRef):
+                    continue
+                uri = str(term)
+                if self.document.valid_qualified_name(uri) is not None:
+                    continue
+                # the namespace ends with the last '/' or '#' that has something
+                # after it
+                cut = max(uri.rfind("/", 0, len(uri) - 1), uri.rfind("#", 0, len(uri) - 1))
+                if cut > 0:
+                    self.document.add_namespace("ns", uri[: cut + 1])
+
     def decode_container(
         self,
         graph,
@@ -526,6 +549,7 @@ class ProvRDFSerializer(Serializer):
         PROV_CLS_MAP = {}
         formal_attributes = {}
         unique_sets = {}
+        self._make_nameable(graph)
         for key, val in PROV_BASE_CLS.items():
             PROV_CLS_MAP[key.uri] = PROV_BASE_CLS[key]
         other_attributes = {}
